@@ -88,6 +88,7 @@ class Scheduler:
         start_delays: tuple[float, ...] = (),
         sync_preempts: int = 0,
         sync_odds: int = 8,
+        stall_delays: tuple[float, ...] = (),
     ) -> None:
         self.ch = ch
         self.log = log if log is not None else EventLog()
@@ -111,6 +112,10 @@ class Scheduler:
         # run).  Reads made just outside a critical section - the classic check-then-act window - sit exactly there, and
         # uniformly placed line pre-emptions find a two-line window only once in hundreds of runs.
         self.sync_left = sync_preempts
+        # fault "stalled thread / process": a pre-empted thread may stay frozen for one of these virtual durations (SIGSTOP,
+        # a long GC pause, a starved CPU) instead of being runnable again at once - without it a pre-empted thread always
+        # resumes as soon as every other thread blocks, which no real scheduler promises
+        self.stall_delays = tuple(stall_delays)
         self.sync_odds = max(2, sync_odds)
         self.wall_limit = wall_limit
         self.abort = False
@@ -273,6 +278,16 @@ class Scheduler:
         self.log.add("preempt", cur.sid, site, "->", nxt.sid)
         if nxt.state == BLOCKED:
             self._fire_deadline(nxt)
+        if self.stall_delays:
+            k = self.ch.choose(len(self.stall_delays) + 1, "preempt.stall")
+            if k:
+                self._dseq += 1
+                cur.dseq = self._dseq
+                cur.state = BLOCKED
+                cur.wait_on = ("stalled", cur.sid)
+                cur.deadline = self.now + self.stall_delays[k - 1]
+                self.ch.fault("thread_stalled")
+                self.log.add("stall", cur.sid, self.stall_delays[k - 1])
         self._switch_to(cur, nxt)
 
     def yield_now(self, site: str = "yield") -> None:
